@@ -6,24 +6,24 @@ distinct non-NULL units; tombstones are reused; chains never shrink.
 namespace ArgoVerif.Model.UnitMap
 
 /-- non-NULL units stored in a chain, in link order -/
-def units (c : List Entry) : List UInt64 := (c.filter (fun e => e.unit != 0)).map (·.unit)
+def units (z : UInt64) (c : List Entry) : List UInt64 := (c.filter (fun e => e.unit != z)).map (·.unit)
 
-theorem mem_units (c : List Entry) (u : UInt64) : u ∈ units c ↔ u ≠ 0 ∧ ∃ e ∈ c, e.unit = u := by
+theorem mem_units (z : UInt64) (c : List Entry) (u : UInt64) : u ∈ units z c ↔ u ≠ z ∧ ∃ e ∈ c, e.unit = u := by
   simp only [units, List.mem_map, List.mem_filter, bne_iff_ne, ne_eq]
   constructor
   · rintro ⟨e, ⟨he, hne⟩, rfl⟩; exact ⟨hne, e, he, rfl⟩
   · rintro ⟨hne, e, he, rfl⟩; exact ⟨e, ⟨he, hne⟩, rfl⟩
 
-theorem units_cons (e : Entry) (r : List Entry) :
-    units (e :: r) = if e.unit = 0 then units r else e.unit :: units r := by
+theorem units_cons (z : UInt64) (e : Entry) (r : List Entry) :
+    units z (e :: r) = if e.unit = z then units z r else e.unit :: units z r := by
   simp only [units, List.filter_cons]
-  by_cases h : e.unit = 0 <;> simp [h]
+  by_cases h : e.unit = z <;> simp [h]
 
-theorem chainGet_none (u : UInt64) (c : List Entry) (hu : u ≠ 0) : chainGet u c = none ↔ u ∉ units c := by
+theorem chainGet_none (z : UInt64) (u : UInt64) (c : List Entry) (hu : u ≠ z) : chainGet u c = none ↔ u ∉ units z c := by
   induction c with
   | nil => simp [chainGet, units]
   | cons e r ih =>
-    rw [units_cons]
+    rw [units_cons z]
     by_cases h : e.unit = u
     · subst h; simp [chainGet, hu]
     · have h' : ¬ u = e.unit := fun x => h x.symm
@@ -31,19 +31,19 @@ theorem chainGet_none (u : UInt64) (c : List Entry) (hu : u ≠ 0) : chainGet u 
       split <;> simp [ih, h']
 
 /-- reuse succeeds iff there is a tombstone; it keeps the length -/
-theorem chainReuse_none (u : UInt64) (th : Nat) (c : List Entry) :
-    chainReuse u th c = none ↔ ∀ e ∈ c, e.unit ≠ 0 := by
+theorem chainReuse_none (z : UInt64) (u : UInt64) (th : Nat) (c : List Entry) :
+    chainReuse z u th c = none ↔ ∀ e ∈ c, e.unit ≠ z := by
   induction c with
   | nil => simp [chainReuse]
   | cons e r ih =>
-    by_cases h : e.unit = 0
+    by_cases h : e.unit = z
     · simp [chainReuse, h]
     · simp only [chainReuse, h, if_false, List.mem_cons, forall_eq_or_imp, ne_eq, not_false_eq_true, true_and]
-      cases hr : chainReuse u th r with
+      cases hr : chainReuse z u th r with
       | none => simp [← ih, hr]
       | some r' => simp only [reduceCtorEq, false_iff]; intro hx; rw [ih.mpr hx] at hr; cases hr
 
-theorem chainReuse_length (u : UInt64) (th : Nat) (c c' : List Entry) (h : chainReuse u th c = some c') :
+theorem chainReuse_length (z : UInt64) (u : UInt64) (th : Nat) (c c' : List Entry) (h : chainReuse z u th c = some c') :
     c'.length = c.length := by
   induction c generalizing c' with
   | nil => simp [chainReuse] at h
@@ -51,12 +51,12 @@ theorem chainReuse_length (u : UInt64) (th : Nat) (c c' : List Entry) (h : chain
     simp only [chainReuse] at h
     split at h
     · simp only [Option.some.injEq] at h; subst h; rfl
-    · cases hr : chainReuse u th r with
+    · cases hr : chainReuse z u th r with
       | none => simp [hr] at h
       | some r' => simp only [hr, Option.some.injEq] at h; subst h; simp [ih r' hr]
 
-theorem chainReuse_units (u : UInt64) (th : Nat) (c c' : List Entry) (hu : u ≠ 0)
-    (h : chainReuse u th c = some c') : ∀ x, x ∈ units c' ↔ x = u ∨ x ∈ units c := by
+theorem chainReuse_units (z : UInt64) (u : UInt64) (th : Nat) (c c' : List Entry) (hu : u ≠ z)
+    (h : chainReuse z u th c = some c') : ∀ x, x ∈ units z c' ↔ x = u ∨ x ∈ units z c := by
   induction c generalizing c' with
   | nil => simp [chainReuse] at h
   | cons e r ih =>
@@ -64,13 +64,13 @@ theorem chainReuse_units (u : UInt64) (th : Nat) (c c' : List Entry) (hu : u ≠
     split at h
     · next he =>
       simp only [Option.some.injEq] at h; subst h
-      intro x; rw [units_cons, units_cons]; simp [hu, he]
+      intro x; rw [units_cons z, units_cons z]; simp [hu, he]
     · next he =>
-      cases hr : chainReuse u th r with
+      cases hr : chainReuse z u th r with
       | none => simp [hr] at h
       | some r' =>
         simp only [hr, Option.some.injEq] at h; subst h
-        intro x; rw [units_cons, units_cons]; simp only [he, if_false, List.mem_cons]
+        intro x; rw [units_cons z, units_cons z]; simp only [he, if_false, List.mem_cons]
         rw [ih r' hr]
         constructor
         · rintro (h1 | h1 | h1)
@@ -82,51 +82,51 @@ theorem chainReuse_units (u : UInt64) (th : Nat) (c c' : List Entry) (hu : u ≠
           · exact Or.inl h1
           · exact Or.inr (Or.inr h1)
 
-theorem chainReuse_nodup (u : UInt64) (th : Nat) (c c' : List Entry) (hu : u ≠ 0) (hnd : (units c).Nodup)
-    (hnew : u ∉ units c) (h : chainReuse u th c = some c') : (units c').Nodup := by
+theorem chainReuse_nodup (z : UInt64) (u : UInt64) (th : Nat) (c c' : List Entry) (hu : u ≠ z) (hnd : (units z c).Nodup)
+    (hnew : u ∉ units z c) (h : chainReuse z u th c = some c') : (units z c').Nodup := by
   induction c generalizing c' with
   | nil => simp [chainReuse] at h
   | cons e r ih =>
     simp only [chainReuse] at h
-    rw [units_cons] at hnd hnew
+    rw [units_cons z] at hnd hnew
     split at h
     · next he =>
       simp only [Option.some.injEq] at h; subst h
       simp only [he, if_true] at hnd hnew
-      rw [units_cons]; simp only [hu, if_false, List.nodup_cons]; exact ⟨hnew, hnd⟩
+      rw [units_cons z]; simp only [hu, if_false, List.nodup_cons]; exact ⟨hnew, hnd⟩
     · next he =>
       simp only [he, if_false, List.nodup_cons, List.mem_cons, not_or] at hnd hnew
-      cases hr : chainReuse u th r with
+      cases hr : chainReuse z u th r with
       | none => simp [hr] at h
       | some r' =>
         simp only [hr, Option.some.injEq] at h; subst h
-        rw [units_cons]; simp only [he, if_false, List.nodup_cons]
+        rw [units_cons z]; simp only [he, if_false, List.nodup_cons]
         refine ⟨?_, ih r' hnd.2 hnew.2 hr⟩
-        rw [chainReuse_units u th r r' hu hr]
+        rw [chainReuse_units z u th r r' hu hr]
         intro hx
         rcases hx with hx | hx
         · exact hnew.1 hx.symm
         · exact hnd.1 hx
 
-theorem chainReuse_get (u : UInt64) (th : Nat) (c c' : List Entry) (hu : u ≠ 0) (hnew : u ∉ units c)
-    (h : chainReuse u th c = some c') (x : UInt64) (hx : x ≠ 0) :
+theorem chainReuse_get (z : UInt64) (u : UInt64) (th : Nat) (c c' : List Entry) (hu : u ≠ z) (hnew : u ∉ units z c)
+    (h : chainReuse z u th c = some c') (x : UInt64) (hx : x ≠ z) :
     chainGet x c' = if x = u then some th else chainGet x c := by
   induction c generalizing c' with
   | nil => simp [chainReuse] at h
   | cons e r ih =>
     simp only [chainReuse] at h
-    rw [units_cons] at hnew
+    rw [units_cons z] at hnew
     split at h
     · next he =>
       simp only [Option.some.injEq] at h; subst h
-      have h0 : ¬ (0 : UInt64) = x := fun y => hx y.symm
+      have h0 : ¬ z = x := fun y => hx y.symm
       by_cases hxu : x = u
       · subst hxu; simp [chainGet]
       · have : ¬ u = x := fun y => hxu y.symm
         simp [chainGet, he, hxu, this, h0]
     · next he =>
       simp only [he, if_false, List.mem_cons, not_or] at hnew
-      cases hr : chainReuse u th r with
+      cases hr : chainReuse z u th r with
       | none => simp [hr] at h
       | some r' =>
         simp only [hr, Option.some.injEq] at h; subst h
@@ -136,21 +136,21 @@ theorem chainReuse_get (u : UInt64) (th : Nat) (c c' : List Entry) (hu : u ≠ 0
           simp [hex, this]
         · simp only [hex, if_false]; exact ih r' hnew.2 hr
 
-theorem chainClear_none (u : UInt64) (c : List Entry) (hu : u ≠ 0) : chainClear u c = none ↔ u ∉ units c := by
+theorem chainClear_none (z : UInt64) (u : UInt64) (c : List Entry) (hu : u ≠ z) : chainClear z u c = none ↔ u ∉ units z c := by
   induction c with
   | nil => simp [chainClear, units]
   | cons e r ih =>
-    rw [units_cons]
+    rw [units_cons z]
     by_cases h : e.unit = u
     · subst h; simp [chainClear, hu]
     · have h' : ¬ u = e.unit := fun x => h x.symm
-      have hmem : (u ∈ if e.unit = 0 then units r else e.unit :: units r) ↔ u ∈ units r := by
-        by_cases he0 : e.unit = 0 <;> simp [he0, h']
+      have hmem : (u ∈ if e.unit = z then units z r else e.unit :: units z r) ↔ u ∈ units z r := by
+        by_cases he0 : e.unit = z <;> simp [he0, h']
       rw [hmem, ← ih]
       simp only [chainClear, h, if_false]
-      cases hr : chainClear u r <;> simp
+      cases hr : chainClear z u r <;> simp
 
-theorem chainClear_length (u : UInt64) (c c' : List Entry) (h : chainClear u c = some c') :
+theorem chainClear_length (z : UInt64) (u : UInt64) (c c' : List Entry) (h : chainClear z u c = some c') :
     c'.length = c.length := by
   induction c generalizing c' with
   | nil => simp [chainClear] at h
@@ -158,35 +158,35 @@ theorem chainClear_length (u : UInt64) (c c' : List Entry) (h : chainClear u c =
     simp only [chainClear] at h
     split at h
     · simp only [Option.some.injEq] at h; subst h; rfl
-    · cases hr : chainClear u r with
+    · cases hr : chainClear z u r with
       | none => simp [hr] at h
       | some r' => simp only [hr, Option.some.injEq] at h; subst h; simp [ih r' hr]
 
-theorem chainClear_units (u : UInt64) (c c' : List Entry) (hu : u ≠ 0) (hnd : (units c).Nodup)
-    (h : chainClear u c = some c') : ∀ x, x ∈ units c' ↔ x ≠ u ∧ x ∈ units c := by
+theorem chainClear_units (z : UInt64) (u : UInt64) (c c' : List Entry) (hu : u ≠ z) (hnd : (units z c).Nodup)
+    (h : chainClear z u c = some c') : ∀ x, x ∈ units z c' ↔ x ≠ u ∧ x ∈ units z c := by
   induction c generalizing c' with
   | nil => simp [chainClear] at h
   | cons e r ih =>
     simp only [chainClear] at h
-    rw [units_cons] at hnd
+    rw [units_cons z] at hnd
     split at h
     · next he =>
       simp only [Option.some.injEq] at h; subst h
-      have he0 : ¬ e.unit = 0 := by rw [he]; exact hu
+      have he0 : ¬ e.unit = z := by rw [he]; exact hu
       simp only [he0, if_false, List.nodup_cons] at hnd
-      intro x; rw [units_cons, units_cons]; simp only [if_true, he0, if_false, List.mem_cons]
+      intro x; rw [units_cons z, units_cons z]; simp only [if_true, he0, if_false, List.mem_cons]
       constructor
       · intro hx; refine ⟨?_, Or.inr hx⟩; intro hxu; rw [hxu, ← he] at hx; exact hnd.1 hx
       · rintro ⟨hxu, hx | hx⟩
         · exact absurd (hx.trans he) hxu
         · exact hx
     · next he =>
-      cases hr : chainClear u r with
+      cases hr : chainClear z u r with
       | none => simp [hr] at h
       | some r' =>
         simp only [hr, Option.some.injEq] at h; subst h
-        intro x; rw [units_cons, units_cons]
-        by_cases he0 : e.unit = 0
+        intro x; rw [units_cons z, units_cons z]
+        by_cases he0 : e.unit = z
         · simp only [he0, if_true] at hnd ⊢
           exact ih r' hnd hr x
         · simp only [he0, if_false, List.nodup_cons, List.mem_cons] at hnd ⊢
@@ -199,39 +199,39 @@ theorem chainClear_units (u : UInt64) (c c' : List Entry) (hu : u ≠ 0) (hnd : 
             · exact Or.inl hx
             · exact Or.inr ⟨hxu, hx⟩
 
-theorem chainClear_nodup (u : UInt64) (c c' : List Entry) (hu : u ≠ 0) (hnd : (units c).Nodup)
-    (h : chainClear u c = some c') : (units c').Nodup := by
+theorem chainClear_nodup (z : UInt64) (u : UInt64) (c c' : List Entry) (hu : u ≠ z) (hnd : (units z c).Nodup)
+    (h : chainClear z u c = some c') : (units z c').Nodup := by
   induction c generalizing c' with
   | nil => simp [chainClear] at h
   | cons e r ih =>
     simp only [chainClear] at h
-    rw [units_cons] at hnd
+    rw [units_cons z] at hnd
     split at h
     · next he =>
       simp only [Option.some.injEq] at h; subst h
-      have he0 : ¬ e.unit = 0 := by rw [he]; exact hu
+      have he0 : ¬ e.unit = z := by rw [he]; exact hu
       simp only [he0, if_false, List.nodup_cons] at hnd
-      rw [units_cons]; simp only [if_true]; exact hnd.2
+      rw [units_cons z]; simp only [if_true]; exact hnd.2
     · next he =>
-      cases hr : chainClear u r with
+      cases hr : chainClear z u r with
       | none => simp [hr] at h
       | some r' =>
         simp only [hr, Option.some.injEq] at h; subst h
-        rw [units_cons]
-        by_cases he0 : e.unit = 0
+        rw [units_cons z]
+        by_cases he0 : e.unit = z
         · simp only [he0, if_true] at hnd ⊢; exact ih r' hnd hr
         · simp only [he0, if_false, List.nodup_cons] at hnd ⊢
           refine ⟨?_, ih r' hnd.2 hr⟩
-          rw [chainClear_units u r r' hu hnd.2 hr]
+          rw [chainClear_units z u r r' hu hnd.2 hr]
           intro hx; exact hnd.1 hx.2
 
-theorem chainClear_get (u : UInt64) (c c' : List Entry) (hu : u ≠ 0) (hnd : (units c).Nodup)
-    (h : chainClear u c = some c') (x : UInt64) (hx : x ≠ 0) :
+theorem chainClear_get (z : UInt64) (u : UInt64) (c c' : List Entry) (hu : u ≠ z) (hnd : (units z c).Nodup)
+    (h : chainClear z u c = some c') (x : UInt64) (hx : x ≠ z) :
     chainGet x c' = if x = u then none else chainGet x c := by
   by_cases hxu : x = u
   · subst hxu
     simp only [if_true]
-    rw [chainGet_none x c' hx, chainClear_units x c c' hx hnd h]
+    rw [chainGet_none z x c' hx, chainClear_units z x c c' hx hnd h]
     simp
   · simp only [hxu, if_false]
     clear hnd
@@ -242,11 +242,11 @@ theorem chainClear_get (u : UInt64) (c c' : List Entry) (hu : u ≠ 0) (hnd : (u
       split at h
       · next he =>
         simp only [Option.some.injEq] at h; subst h
-        have h0 : ¬ (0 : UInt64) = x := fun y => hx y.symm
+        have h0 : ¬ z = x := fun y => hx y.symm
         have : ¬ e.unit = x := by rw [he]; exact fun y => hxu y.symm
         simp [chainGet, h0, this]
       · next he =>
-        cases hr : chainClear u r with
+        cases hr : chainClear z u r with
         | none => simp [hr] at h
         | some r' =>
           simp only [hr, Option.some.injEq] at h; subst h
@@ -258,46 +258,46 @@ theorem chainClear_get (u : UInt64) (c c' : List Entry) (hu : u ≠ 0) (hnd : (u
 /-! ### table level -/
 
 structure WF (m : UM) : Prop where
-  hash_ok : ∀ i u, u ∈ units (m.b i) → hashIndex m.exp u = i
-  nodup : ∀ i, (units (m.b i)).Nodup
+  hash_ok : ∀ i u, u ∈ units m.nul (m.b i) → hashIndex m.exp u = i
+  nodup : ∀ i, (units m.nul (m.b i)).Nodup
 
 /-- abstraction: the finite map a table represents (NULL is never a key) -/
-def absMap (m : UM) (u : UInt64) : Option Nat := if u = 0 then none else getThread m u
+def absMap (m : UM) (u : UInt64) : Option Nat := if u = m.nul then none else getThread m u
 
-theorem empty_wf (exp : Nat) : WF (empty exp) := by
+theorem empty_wf (exp : Nat) (z : UInt64) : WF (empty exp z) := by
   constructor <;> simp [empty, units]
 
-theorem absMap_empty (exp : Nat) (u : UInt64) : absMap (empty exp) u = none := by
+theorem absMap_empty (exp : Nat) (z : UInt64) (u : UInt64) : absMap (empty exp z) u = none := by
   simp [absMap, getThread, empty, chainGet]
 
-theorem absMap_none_iff (m : UM) (u : UInt64) (hu : u ≠ 0) :
-    absMap m u = none ↔ u ∉ units (m.b (hashIndex m.exp u)) := by
-  simp only [absMap, hu, if_false, getThread]; exact chainGet_none u _ hu
+theorem absMap_none_iff (m : UM) (u : UInt64) (hu : u ≠ m.nul) :
+    absMap m u = none ↔ u ∉ units m.nul (m.b (hashIndex m.exp u)) := by
+  simp only [absMap, hu, if_false, getThread]; exact chainGet_none m.nul u _ hu
 
-theorem absMap_other_bucket (m : UM) (hw : WF m) (x : UInt64) (hx : x ≠ 0) (i : Nat)
-    (hi : hashIndex m.exp x ≠ i) : x ∉ units (m.b i) := fun h => hi (hw.hash_ok i x h)
+theorem absMap_other_bucket (m : UM) (hw : WF m) (x : UInt64) (hx : x ≠ m.nul) (i : Nat)
+    (hi : hashIndex m.exp x ≠ i) : x ∉ units m.nul (m.b i) := fun h => hi (hw.hash_ok i x h)
 
 /-- `unit_map_thread` on a unit that is not NULL and not mapped -/
-theorem map_spec (m : UM) (u : UInt64) (th : Nat) (mem : Bool) (hw : WF m) (hu : u ≠ 0)
+theorem map_spec (m : UM) (u : UInt64) (th : Nat) (mem : Bool) (hw : WF m) (hu : u ≠ m.nul)
     (hnew : absMap m u = none) :
     (mem = true → (mapThread m u th mem).isSome = true) ∧
     ∀ m', mapThread m u th mem = some m' →
-      WF m' ∧ m'.exp = m.exp ∧ (∀ x, absMap m' x = if x = u then some th else absMap m x) ∧
+      WF m' ∧ (m'.exp = m.exp ∧ m'.nul = m.nul) ∧ (∀ x, absMap m' x = if x = u then some th else absMap m x) ∧
       (∀ i, (m.b i).length ≤ (m'.b i).length) ∧
-      ((∃ e ∈ m.b (hashIndex m.exp u), e.unit = 0) → ∀ i, (m'.b i).length = (m.b i).length) := by
+      ((∃ e ∈ m.b (hashIndex m.exp u), e.unit = m.nul) → ∀ i, (m'.b i).length = (m.b i).length) := by
   have hnu := (absMap_none_iff m u hu).mp hnew
   simp only [mapThread]
-  cases hr : chainReuse u th (m.b (hashIndex m.exp u)) with
+  cases hr : chainReuse m.nul u th (m.b (hashIndex m.exp u)) with
   | some c =>
     refine ⟨fun _ => rfl, ?_⟩
     intro m' hm
     simp only [Option.some.injEq] at hm; subst hm
-    refine ⟨⟨?_, ?_⟩, rfl, ?_, ?_, ?_⟩
+    refine ⟨⟨?_, ?_⟩, ⟨rfl, rfl⟩, ?_, ?_, ?_⟩
     · intro i x hx
       simp only [updB] at hx
       split at hx
       · next hi =>
-        rw [chainReuse_units u th _ c hu hr] at hx
+        rw [chainReuse_units m.nul u th _ c hu hr] at hx
         rcases hx with hx | hx
         · rw [hx]; exact hi.symm
         · rw [hi]; exact hw.hash_ok _ x hx
@@ -305,40 +305,40 @@ theorem map_spec (m : UM) (u : UInt64) (th : Nat) (mem : Bool) (hw : WF m) (hu :
     · intro i
       simp only [updB]
       split
-      · exact chainReuse_nodup u th _ c hu (hw.nodup _) hnu hr
+      · exact chainReuse_nodup m.nul u th _ c hu (hw.nodup _) hnu hr
       · exact hw.nodup i
     · intro x
       simp only [absMap, getThread, updB]
-      by_cases hx0 : x = 0
+      by_cases hx0 : x = m.nul
       · subst hx0
-        have : ¬ (0 : UInt64) = u := fun y => hu y.symm
+        have : ¬ m.nul = u := fun y => hu y.symm
         simp [this]
       · simp only [hx0, if_false]
         by_cases hb : hashIndex m.exp x = hashIndex m.exp u
         · simp only [hb, if_true]
-          exact chainReuse_get u th _ c hu hnu hr x hx0
+          exact chainReuse_get m.nul u th _ c hu hnu hr x hx0
         · have : ¬ x = u := fun y => hb (by rw [y])
           simp [hb, this]
     · intro i; simp only [updB]; split
-      · next hi => rw [chainReuse_length u th _ c hr, hi]; exact Nat.le_refl _
+      · next hi => rw [chainReuse_length m.nul u th _ c hr, hi]; exact Nat.le_refl _
       · exact Nat.le_refl _
     · intro _ i; simp only [updB]; split
-      · next hi => rw [chainReuse_length u th _ c hr, hi]
+      · next hi => rw [chainReuse_length m.nul u th _ c hr, hi]
       · rfl
   | none =>
-    have hnt := (chainReuse_none u th _).mp hr
+    have hnt := (chainReuse_none m.nul u th _).mp hr
     cases mem with
     | false => simp
     | true =>
       refine ⟨fun _ => rfl, ?_⟩
       intro m' hm
       simp only [if_true, Option.some.injEq] at hm; subst hm
-      refine ⟨⟨?_, ?_⟩, rfl, ?_, ?_, ?_⟩
+      refine ⟨⟨?_, ?_⟩, ⟨rfl, rfl⟩, ?_, ?_, ?_⟩
       · intro i x hx
         simp only [updB] at hx
         split at hx
         · next hi =>
-          rw [units_cons] at hx
+          rw [units_cons m.nul] at hx
           simp only [hu, if_false, List.mem_cons] at hx
           rcases hx with hx | hx
           · rw [hx]; exact hi.symm
@@ -347,13 +347,13 @@ theorem map_spec (m : UM) (u : UInt64) (th : Nat) (mem : Bool) (hw : WF m) (hu :
       · intro i
         simp only [updB]
         split
-        · rw [units_cons]; simp only [hu, if_false, List.nodup_cons]; exact ⟨hnu, hw.nodup _⟩
+        · rw [units_cons m.nul]; simp only [hu, if_false, List.nodup_cons]; exact ⟨hnu, hw.nodup _⟩
         · exact hw.nodup i
       · intro x
         simp only [absMap, getThread, updB]
-        by_cases hx0 : x = 0
+        by_cases hx0 : x = m.nul
         · subst hx0
-          have : ¬ (0 : UInt64) = u := fun y => hu y.symm
+          have : ¬ m.nul = u := fun y => hu y.symm
           simp [this]
         · simp only [hx0, if_false]
           by_cases hb : hashIndex m.exp x = hashIndex m.exp u
@@ -370,41 +370,41 @@ theorem map_spec (m : UM) (u : UInt64) (th : Nat) (mem : Bool) (hw : WF m) (hu :
       · rintro ⟨e, he, he0⟩; exact absurd he0 (hnt e he)
 
 /-- `unit_unmap_thread` on a mapped unit -/
-theorem unmap_spec (m : UM) (u : UInt64) (hw : WF m) (hu : u ≠ 0) (hm : absMap m u ≠ none) :
-    ∃ m', unmapThread m u = some m' ∧ WF m' ∧ m'.exp = m.exp ∧
+theorem unmap_spec (m : UM) (u : UInt64) (hw : WF m) (hu : u ≠ m.nul) (hm : absMap m u ≠ none) :
+    ∃ m', unmapThread m u = some m' ∧ WF m' ∧ (m'.exp = m.exp ∧ m'.nul = m.nul) ∧
       (∀ x, absMap m' x = if x = u then none else absMap m x) ∧
       (∀ i, (m'.b i).length = (m.b i).length) := by
-  have hin : u ∈ units (m.b (hashIndex m.exp u)) := by
+  have hin : u ∈ units m.nul (m.b (hashIndex m.exp u)) := by
     apply Classical.byContradiction; intro hx; exact hm ((absMap_none_iff m u hu).mpr hx)
   simp only [unmapThread]
-  cases hr : chainClear u (m.b (hashIndex m.exp u)) with
-  | none => exact absurd hin ((chainClear_none u _ hu).mp hr)
+  cases hr : chainClear m.nul u (m.b (hashIndex m.exp u)) with
+  | none => exact absurd hin ((chainClear_none m.nul u _ hu).mp hr)
   | some c =>
-    refine ⟨_, rfl, ⟨?_, ?_⟩, rfl, ?_, ?_⟩
+    refine ⟨_, rfl, ⟨?_, ?_⟩, ⟨rfl, rfl⟩, ?_, ?_⟩
     · intro i x hx
       simp only [updB] at hx
       split at hx
       · next hi =>
-        rw [chainClear_units u _ c hu (hw.nodup _) hr] at hx
+        rw [chainClear_units m.nul u _ c hu (hw.nodup _) hr] at hx
         rw [hi]; exact hw.hash_ok _ x hx.2
       · exact hw.hash_ok i x hx
     · intro i
       simp only [updB]
       split
-      · exact chainClear_nodup u _ c hu (hw.nodup _) hr
+      · exact chainClear_nodup m.nul u _ c hu (hw.nodup _) hr
       · exact hw.nodup i
     · intro x
       simp only [absMap, getThread, updB]
-      by_cases hx0 : x = 0
+      by_cases hx0 : x = m.nul
       · simp [hx0]
       · simp only [hx0, if_false]
         by_cases hb : hashIndex m.exp x = hashIndex m.exp u
         · simp only [hb, if_true]
-          exact chainClear_get u _ c hu (hw.nodup _) hr x hx0
+          exact chainClear_get m.nul u _ c hu (hw.nodup _) hr x hx0
         · have : ¬ x = u := fun y => hb (by rw [y])
           simp [hb, this]
     · intro i; simp only [updB]; split
-      · next hi => rw [chainClear_length u _ c hr, hi]
+      · next hi => rw [chainClear_length m.nul u _ c hr, hi]
       · rfl
 
 end ArgoVerif.Model.UnitMap
